@@ -17,7 +17,12 @@ NDecl == 7          \* items before main: import | type T | variables | helpers 
 VARIABLES cut, entry, sess
 svars == <<prog, res, cut, entry, sess>>
 
-Entries == {"eval", "compile-execute", "whole-eval", "whole-compile-ast", "whole-evalpath-mapfs", "whole-evalpath-disk"}
+\* "files-*": the declarations are distributed over several files of one package directory
+\* (the cut decides which consecutive items share a file; the files are named so that LATER
+\* items sort EARLIER), evaluated with EvalPath on the directory. The meaning of a package does
+\* not depend on how its declarations are spread over files: same prediction as "whole-*".
+Entries == {"eval", "compile-execute", "whole-eval", "whole-compile-ast", "whole-evalpath-mapfs", "whole-evalpath-disk",
+            "files-evalpath-mapfs", "files-evalpath-disk"}
 
 NItems(p) == NDecl + Len(p.main)
 
